@@ -56,7 +56,7 @@ def judge_valid(trs, kind):
         if v == 'timeout':
             continue
         if v.startswith('signal'):
-            out.append(('valid schema x %s|%s' % (tr.tool, v), 'died on a valid input (%s); stderr tail: %s' % (kind, tr.r.err[-300:])))
+            out.append(('%s x %s|%s' % (cls, tr.tool, v), 'died on a valid input; stderr tail: %s' % tr.r.err[-300:]))
         elif v == 'rejected':
             out.append(('%s x %s|rejected (PE %s)' % (cls, tr.tool, ','.join('%03d' % c for c in sorted(set(tr.codes()))) or 'none'),
                         'exit %s: %s' % (tr.r.rc, [d.raw for d in tr.errors][:4])))
@@ -196,6 +196,7 @@ def main(chk):
              '(valid kind, tool, verdict) triples judged' % (n_multi, n_valid, PER_FILE, len(F.CLASS_IDS) - 1),
         assumptions=['generated valid files are valid EXPRESS and each mutant is invalid by construction (vf/c04_faults.py)',
                      'tools are taken from the plain (RelWithDebInfo) build of the current working tree',
-                     'exp2python dies (SIGABRT) on every valid schema that has an entity attribute (open finding, also C18): its verdict on those '
-                     'inputs is reported under that one key; its success path is observed on the attribute-less probe',
+                     'exp2python dies (SIGABRT) on valid schemas (entity attribute: strdup without prototype, C18; renamed USE/REFERENCE item: NULL '
+                     'FILE): those runs are reported under the keys "valid single schema / valid multi-schema file x exp2python|signal 6"; its '
+                     'success path is observed on the attribute-less probe and on every schema it does not die on',
                      'wrong argument count in a call is diagnosed by stepcode as a WARNING and is judged by C20 only'])
